@@ -57,6 +57,26 @@ def run(ck):
             last = replay_of(ck, x, {"key_class": cls})
         if len(ck.cov["samples"]) < 8 and cls.split("/")[0] not in [s.get("class") for s in ck.cov["samples"]]:
             ck.cov["samples"].append({"class": cls.split("/")[0], "right_key": c.key.hex(), "tried_key": x["key"].hex(), "verify": x["ver"], "decrypt": x["dec"][:20], "info": x["dec_kv"]})
+    # memory exhaustion at every allocation made inside verify / decrypt (driver: WV_FAIL_ALLOC=k makes the k-th operator new of the
+    # library call fail): the operation may die, it must not ACCEPT a wrong key or write plaintext
+    fl = []
+    for j, (c, f) in enumerate(small[:6 if big else 3]):
+        k2 = bytearray(c.key); k2[r.randrange(16)] ^= 1 << r.randrange(8)
+        for k in range(1, 50):
+            fl.append("fd%d_%d @WV_FAIL_ALLOC=%d dec %d %s %s" % (j, k, k, c.T, bytes(k2).hex(), f.hex()))
+            if k <= 24:
+                fl.append("fv%d_%d @WV_FAIL_ALLOC=%d ver %d %s %s" % (j, k, k, c.T, bytes(k2).hex(), f.hex()))
+    fo = wv.run_lines([exe], fl, env=env)
+    for l in fl:
+        cid = l.split()[0]
+        got = fo.get(cid, "(no output)")
+        ck.cov["evaluations"] += 1
+        head, kv = split_impl(got)
+        if head.startswith("OK") or (kv.get("outlen", "0") != "0"):
+            ck.violation("a wrong key was accepted (or output written) when allocation %s inside the operation failed: %s" % (l.split()[1].split("=")[1], head[:30]),
+                         {"class": None, "case": l[:3000], "implementation": got[:300], "driver_flags": ck.impl_flags, "replay": "echo '<case>' | harness/drv.cpp built with the flags above against /repo"})
+            break
+    dist["allocation-failure-inside-the-operation"] = len(fl)
     ck.cov["distinct_nontrivial"] = len(distinct)
     ck.cov["files"] = len(files)
     ck.cov["disagreements_model_vs_impl"] = corr
